@@ -41,7 +41,8 @@ from saml2_tophat.sigver import pre_signature_part, signed_instance_factory, pre
 from saml2_tophat.s_utils import error_status_factory
 from saml2_tophat.response import AuthnResponse
 
-BIND = {"post": BINDING_HTTP_POST, "redirect": BINDING_HTTP_REDIRECT, "soap": BINDING_SOAP}
+BIND = {"post": BINDING_HTTP_POST, "redirect": BINDING_HTTP_REDIRECT, "soap": BINDING_SOAP,
+        "artifact": fed.BINDING_HTTP_ARTIFACT}
 # request kind -> (endpoint key prefix, root element, parse method of the receiving Server)
 REQ_KIND = {
     "authn_request": ("sso_", "AuthnRequest", "parse_authn_request"),
@@ -201,7 +202,8 @@ def mutate_value(value, binding, mut, r):
 def decode_value(value, binding):
     if binding == "redirect":
         return wire.inflate_b64(value)
-    if binding == "post":
+    if binding in ("post", "artifact"):
+        # (artifact: what the application hands over after it resolved the artifact - the message, base64 coded)
         return base64.b64decode(value, validate=False)
     if binding == "soap":
         return wire.soap_body(value)
@@ -1002,7 +1004,7 @@ class FedSim(object):
             via, via_binding = "soap_backchannel", "soap"
         else:
             via = ev.get("via") or ("acs_post" if msg["binding"] == "post" else "acs_redirect")
-            via_binding = "redirect" if via.endswith("redirect") else "post"
+            via_binding = "redirect" if via.endswith("redirect") else "artifact" if via.endswith("artifact") else "post"
         value = msg["fields"].get("SAMLResponse")
         if value is None:
             return None
@@ -1011,7 +1013,15 @@ class FedSim(object):
             value, mutdesc = mutate_value(value, msg["binding"], ev["mut"], mkrng(ev.get("sub", 0), "mut"))
             if mutdesc.startswith("nomut") or mutdesc == "undecodable":
                 mutdesc = None if value == msg["fields"].get("SAMLResponse") else mutdesc
-        if ev.get("reencode") and msg["binding"] != via_binding and msg["binding"] in ("post", "redirect"):
+        if via_binding == "artifact" and msg["binding"] in ("post", "redirect"):
+            # the SP application resolved a SAMLart over the back channel and hands the message it got to
+            # parse_authn_request_response(..., BINDING_HTTP_ARTIFACT)
+            try:
+                value = base64.b64encode(decode_value(value, msg["binding"])).decode("ascii")
+                self.count("fault.delivered-through-artifact-handler")
+            except Exception:
+                pass
+        elif ev.get("reencode") and msg["binding"] != via_binding and msg["binding"] in ("post", "redirect"):
             # a gateway in front of the SP hands the message to the handler of the SP's other binding,
             # re-encoded for it
             try:
